@@ -1,10 +1,102 @@
-(* C04 — property theorems only. *)
+(* C04 — property theorems only.
+
+   Reading guide.  [run sup shuffle prune_ep prune_set empty_state ops = (st, evss)] is the model of
+   SelectorAndNamedPortIndex (suppressor on iff [sup]) run on the history [ops]; [evss] is the stream
+   of OnMemberAdded / OnMemberRemoved events, one list per operation.  The three oracles stand for
+   Go map iteration order (any permutation, different at every use) and for the label indexes'
+   candidate pruning (anything that keeps every true match); [oracles_ok] says just that.
+   [replay_f (fun _ => []) ops evss = Some F] means: feeding the events to a consumer never adds a
+   member that is present nor removes one that is absent, and F sid is the consumer's resulting copy
+   of IP set sid.  [truth st s m]: some endpoint / network set in the index matches the set's selector
+   and m is one of its (address | address,port,protocol) contributions.  [total ... sid m] is the
+   number of such contributions, counted with multiplicity. *)
 From Coq Require Import List NArith Arith Bool.
 From Verif.Common Require Import Labels Prefix.
-From Verif.C04 Require Import Model Spec Proofs.
+From Verif.C04 Require Import Model Spec Sets Refs Counts Proofs State Inv Main.
 Import ListNotations.
+
+(* Each member once however many endpoints contribute it: over any history, any iteration order and
+   any sound pruning, an add is only emitted for an absent member and a removal for a present one. *)
+Theorem c04_no_dup_events : forall sup shuffle prune_ep prune_set ops st evss,
+  oracles_ok shuffle prune_ep prune_set -> Forall op_wf ops ->
+  run sup shuffle prune_ep prune_set empty_state ops = (st, evss) ->
+  exists F, replay_f (fun _ => []) ops evss = Some F /\
+            forall sid, NoDup (F sid) /\ (alookup sid (st_sets st) = None -> F sid = []).
+Proof. exact c04_no_dup_events_proof. Qed.
+Print Assumptions c04_no_dup_events.
+
+(* Reference count invariant: memberToRefCount[m] = number of contributions of m, after any history. *)
+Theorem c04_refcount_exact : forall sup shuffle prune_ep prune_set ops st evss,
+  oracles_ok shuffle prune_ep prune_set -> Forall op_wf ops ->
+  run sup shuffle prune_ep prune_set empty_state ops = (st, evss) ->
+  forall sid s m, alookup sid (st_sets st) = Some s ->
+    rc_get (s_rc s) m = total (st_eps st) (st_sets st) sid m /\
+    (rc_get (s_rc s) m > 0 <-> truth st s m)%nat.
+Proof. exact c04_refcount_exact_proof. Qed.
+Print Assumptions c04_refcount_exact.
+
+(* Without suppression the accumulated emitted set of every IP set is exactly the set of selected members. *)
+Theorem c04_members_exact : forall shuffle prune_ep prune_set ops st evss,
+  oracles_ok shuffle prune_ep prune_set -> Forall op_wf ops ->
+  run false shuffle prune_ep prune_set empty_state ops = (st, evss) ->
+  exists F, replay_f (fun _ => []) ops evss = Some F /\
+    forall sid s, alookup sid (st_sets st) = Some s -> forall m, In m (F sid) <-> truth st s m.
+Proof. exact c04_members_exact_proof. Qed.
+Print Assumptions c04_members_exact.
+
+(* Named-port members (address, port, protocol) are exact with either suppressor setting. *)
+Theorem c04_named_port_exact : forall sup shuffle prune_ep prune_set ops st evss,
+  oracles_ok shuffle prune_ep prune_set -> Forall op_wf ops ->
+  run sup shuffle prune_ep prune_set empty_state ops = (st, evss) ->
+  exists F, replay_f (fun _ => []) ops evss = Some F /\
+    forall sid s, alookup sid (st_sets st) = Some s ->
+      forall f a p q, In (MPort f a p q) (F sid) <-> truth st s (MPort f a p q).
+Proof. exact c04_named_port_exact_proof. Qed.
+Print Assumptions c04_named_port_exact.
+
+(* With suppression: no emitted CIDR lies inside another emitted CIDR. *)
+Theorem c04_suppressed_antichain : forall shuffle prune_ep prune_set ops st evss,
+  oracles_ok shuffle prune_ep prune_set -> Forall op_wf ops ->
+  run true shuffle prune_ep prune_set empty_state ops = (st, evss) ->
+  exists F, replay_f (fun _ => []) ops evss = Some F /\
+    forall sid s, alookup sid (st_sets st) = Some s ->
+      forall a b, In (MCidr a) (F sid) -> In (MCidr b) (F sid) -> ccovers a b = true -> a = b.
+Proof. exact c04_suppressed_antichain_proof. Qed.
+Print Assumptions c04_suppressed_antichain.
+
+(* With suppression: the emitted CIDRs cover the same addresses as the selected ones — every emitted
+   CIDR is a selected one and every selected CIDR lies inside an emitted one. *)
+Theorem c04_suppressed_same_cover : forall shuffle prune_ep prune_set ops st evss,
+  oracles_ok shuffle prune_ep prune_set -> Forall op_wf ops ->
+  run true shuffle prune_ep prune_set empty_state ops = (st, evss) ->
+  exists F, replay_f (fun _ => []) ops evss = Some F /\
+    forall sid s, alookup sid (st_sets st) = Some s ->
+      (forall c, In (MCidr c) (F sid) -> truth st s (MCidr c)) /\
+      (forall c, truth st s (MCidr c) -> exists v, In (MCidr v) (F sid) /\ ccovers v c = true).
+Proof. exact c04_suppressed_same_cover_proof. Qed.
+Print Assumptions c04_suppressed_same_cover.
 
 (* Named-port members always carry a real protocol (TCP, UDP or SCTP), never "none". *)
 Theorem c04_named_port_protocol : forall e, protocol_from e <> P_NONE.
 Proof. exact protocol_from_not_none. Qed.
 Print Assumptions c04_named_port_protocol.
+
+(* The hypotheses are satisfiable: the canonical oracles used by the correspondence run qualify. *)
+Theorem c04_oracles_satisfiable : oracles_ok id_shuffle no_prune_ep no_prune_set.
+Proof. exact canon_oracles_ok. Qed.
+Print Assumptions c04_oracles_satisfiable.
+
+(* Non-vacuity: two endpoints share 10.0.0.1, a network set holds 10.0.0.0/24 and 0.0.0.0/0; with the
+   suppressor on the shared address is never emitted on its own and the /0 halves swallow the /24. *)
+Example c04_example_suppressed :
+  let ops := [OpIPSet 0 0 (SEq (B [97]%N) (B [120]%N)) 0 (B []);
+              OpEp 1 KWep [(B [97]%N, B [120]%N)] [c4 167772161 32] [] [];
+              OpEp 2 KWep [(B [97]%N, B [120]%N)] [c4 167772161 32] [] [];
+              OpEp 5 KNetSet [(B [97]%N, B [120]%N)] [c4 167772160 24; c4 0 0] [] [];
+              OpDelEp 1] in
+  snd (run_canon true ops) =
+    [[]; [EAdd 0 (MCidr (c4 167772161 32))]; [];
+     [EAdd 0 (MCidr (c4 167772160 24)); ERem 0 (MCidr (c4 167772161 32));
+      EAdd 0 (MCidr (c4 0 1)); ERem 0 (MCidr (c4 167772160 24)); EAdd 0 (MCidr (c4 2147483648 1))];
+     []].
+Proof. vm_compute. reflexivity. Qed.
